@@ -1081,7 +1081,7 @@ META = {
              'fragment; the span is extended on every accepted fragment; a fragment is offered to the buffered molecules only until the first '
              'accepts it, the fragment cap is tested after the match, and the non-hash path compares with every member. Does NOT decide that the '
              'margin suffices for the data at hand, nor equality of partitions across schedules at runtime.'),
-    'technique': 'static analysis: linear-form check of removal indices, exception-aware path enumeration of the loop body with constant tracking, abstract interpretation of the ejection predicate over all orderings, who-may-raise and first-acceptor path rules; model-based abstract execution of the ejection step (model buffers of <= 4 molecule tokens, every ejectable pattern, both pooling methods) where the structural reading cannot decide',
+    'technique': 'static analysis: linear-form check of removal indices, exception-aware path enumeration of the loop body with constant tracking, abstract interpretation of the ejection predicate over all orderings, who-may-raise and first-acceptor path rules; model-based abstract execution of the ejection step (model buffers of <= 4 molecule tokens, every ejectable pattern, both pooling methods) where the structural reading cannot decide; must-reset check of the buffers at the start of a pass',
     'design_ref': 'DESIGN.md section 5, C07',
 }
 
